@@ -9,8 +9,8 @@ ROOT = os.path.dirname(os.path.dirname(os.path.abspath(__file__)))
 BUILD = os.path.join(ROOT, ".build")
 SPEC = os.path.join(ROOT, "spec")
 HARNESS = os.path.join(ROOT, "harness")
-EVID = os.path.join(ROOT, "evidence")
-REPLAYS = os.path.join(ROOT, "replays")
+EVID = os.environ.get("VERIF_EVID", os.path.join(ROOT, "evidence"))
+REPLAYS = os.environ.get("VERIF_REPLAYS", os.path.join(ROOT, "replays"))
 REPO = os.environ.get("VERIF_REPO", "/repo")
 NCPU = os.cpu_count() or 4
 
@@ -36,11 +36,18 @@ def log(*a):
 def build_harness(race=False):
     """go build -tags verif of the harness against REPO's working tree (incremental)."""
     os.makedirs(BUILD, exist_ok=True)
-    subprocess.run([os.path.join(ROOT, "lib", "mkgomod.sh")], check=True, env=goenv())
     out = os.path.join(BUILD, "harness-race" if race else "harness")
+    cmd = ["go", "build", "-tags", "verif"]
     if REPO != "/repo":
-        out += "-" + hashlib.sha1(REPO.encode()).hexdigest()[:8]
-    cmd = ["go", "build", "-tags", "verif", "-o", out]
+        # a scratch copy of the repository: its own go.mod (via -modfile) and its own binary
+        tag = hashlib.sha1(REPO.encode()).hexdigest()[:8]
+        moddir = os.path.join(BUILD, "mod-" + tag)
+        subprocess.run([os.path.join(ROOT, "lib", "mkgomod.sh"), moddir], check=True, env=goenv())
+        cmd += ["-modfile", os.path.join(moddir, "go.mod")]
+        out += "-" + tag
+    else:
+        subprocess.run([os.path.join(ROOT, "lib", "mkgomod.sh")], check=True, env=goenv())
+    cmd += ["-o", out]
     if race:
         cmd.append("-race")
     cmd.append("./cmd/harness")
